@@ -10,6 +10,7 @@ import (
 	"time"
 
 	"os/exec"
+	"runtime/pprof"
 
 	"github.com/wrgl/wrgl/pkg/verifrt"
 
@@ -129,6 +130,12 @@ func main() {
 			}
 		}
 		w.SetSkip(skip)
+		if pf := os.Getenv("VERIF_CPUPROFILE"); pf != "" {
+			if f, err := os.Create(pf); err == nil {
+				pprof.StartCPUProfile(f)
+				defer pprof.StopCPUProfile()
+			}
+		}
 		func() {
 			defer func() {
 				if r := recover(); r != nil {
